@@ -688,6 +688,12 @@ def genMerge (rng : Rng) (broken : Bool) : Rng × Array String :=
   let s1 := { s1 with rng := rngA }
   let s1 := (List.range jr).foldl (fun (s : GenSt) _ => match s.tryOps [.nextId] with | some x => x | none => s) s1
   let s1 := match s1.tryOps (treeOps tr) with | some x => x | none => s1
+  -- some data of the right tree were read before the merge (only reads that collect nothing): the right vertex then holds
+  -- its bytes with the status *read*; in the left graph they must arrive as a fresh, unread datum all the same
+  let s1 := tr.foldl (fun (s : GenSt) nd =>
+    let (rng, c) := s.rng.below 3
+    let s := { s with rng := rng }
+    if c = 0 ∧ nd.id ∈ s.r.ids ∧ nd.data.isSome ∧ (R.data s.r nd.id).ids.length = s.r.ids.length then s.emit (.data nd.id) else s) s1
   let freeR := (List.range capR).filter (· ∉ idsR)
   let s1 := if broken then
       match mode, freeR with
